@@ -150,24 +150,30 @@ class StepOracle:
     # -------------------------------------------------------------- parent map
     def _candidates(self):
         """Float pre-selection: for every child cell the parent cells whose closure contains the
-        child's centroid up to 1e-7 (barycentric).  Purely a filter; the decision is made by
-        `locate` in exact / tolerance arithmetic on all child vertices."""
+        child's centroid up to 1e-7 (barycentric).  Pairs are pre-selected with a k-d tree (a child
+        inside K has its centroid within h_K of K's centroid).  Purely a filter; the decision is
+        made by `locate` in exact / tolerance arithmetic on all child vertices."""
+        from scipy.spatial import cKDTree
         d = self.d
         V0 = self.Pp[:, self.tp[0]]                                         # (d, ntp)
         A = np.stack([self.Pp[:, self.tp[j + 1]] - V0 for j in range(d)], axis=-1)  # (d, ntp, d)
         A = np.moveaxis(A, 1, 0)                                            # (ntp, d, d): columns = edges
         Ainv = np.linalg.inv(A)
         cen = self.Pc[:, self.tc].mean(axis=1)                              # (d, ntc)
+        cenp = self.Pp[:, self.tp].mean(axis=1)
+        tree = cKDTree(cen.T)
+        lists = tree.query_ball_point(cenp.T, r=self.hp * (1 + 1e-6) + 1e-300)
         cands = [[] for _ in range(self.ntc)]
-        chunk = max(1, int(4e6 // max(1, self.ntp * (d + 1))))
-        for s in range(0, self.ntc, chunk):
-            X = cen[:, s:s + chunk]                                         # (d, m)
-            rel = X[None, :, :] - V0.T[:, :, None]                          # (ntp, d, m)
-            lam = np.einsum("kij,kjm->kim", Ainv, rel)                      # (ntp, d, m)
-            lmin = np.minimum(lam.min(axis=1), 1.0 - lam.sum(axis=1))       # (ntp, m)
-            kk, mm = np.nonzero(lmin >= -1e-7)
-            for k, m in zip(kk.tolist(), mm.tolist()):
-                cands[s + m].append(k)
+        K = np.repeat(np.arange(self.ntp), [len(li) for li in lists])
+        C = np.fromiter(itertools.chain.from_iterable(lists), dtype=np.int64, count=K.size)
+        step = 2_000_000
+        for s in range(0, K.size, step):
+            k, c = K[s:s + step], C[s:s + step]
+            rel = cen[:, c] - V0[:, k]                                      # (d, m)
+            lam = np.einsum("mij,jm->mi", Ainv[k], rel)                     # (m, d)
+            lmin = np.minimum(lam.min(axis=1), 1.0 - lam.sum(axis=1))
+            for kk, cc in zip(k[lmin >= -1e-7].tolist(), c[lmin >= -1e-7].tolist()):
+                cands[cc].append(kk)
         return cands
 
     def bary_numerators(self, K, Y):
@@ -303,7 +309,11 @@ class StepOracle:
 
     # -------------------------------------------------------------- hanging nodes
     def vertices_inside_edges(self):
-        """(vertex, edge) pairs where a child vertex lies in the relative interior of a child cell's edge."""
+        """(vertex, edge) pairs where a child vertex lies in the relative interior of a child cell's edge.
+        Candidates come from a k-d tree (a point of the segment is within L/2 of its midpoint); the decision
+        is exact (collinear and strictly between) or, in tolerance mode, distance <= 1e-7 L (a vertex that
+        close to the interior of an edge is a hanging node for every purpose)."""
+        from scipy.spatial import cKDTree
         d = self.d
         pairs = set()
         for i, j in itertools.combinations(range(d + 1), 2):
@@ -312,32 +322,32 @@ class StepOracle:
         E = np.array(sorted(pairs), dtype=np.int64).T                       # (2, ne)
         used = np.unique(self.tc)
         A, B = self.Pc[:, E[0]], self.Pc[:, E[1]]
-        L2 = ((B - A) ** 2).sum(axis=0)
+        L = np.sqrt(((B - A) ** 2).sum(axis=0))
+        tree = cKDTree(self.Pc[:, used].T)
+        lists = tree.query_ball_point((0.5 * (A + B)).T, r=0.5 * L * (1 + 1e-6))
+        ee = np.repeat(np.arange(E.shape[1]), [len(li) for li in lists])
+        vv = used[np.fromiter(itertools.chain.from_iterable(lists), dtype=np.int64, count=ee.size)]
+        keep = (vv != E[0, ee]) & (vv != E[1, ee])
+        ee, vv = ee[keep], vv[keep]
+        if not ee.size:
+            return []
+        a, u = A[:, ee], (B - A)[:, ee]
+        w = self.Pc[:, vv] - a
+        tpar = (w * u).sum(axis=0) / L[ee] ** 2
+        dist2 = ((w - tpar * u) ** 2).sum(axis=0)
+        near = (tpar > 1e-9) & (tpar < 1 - 1e-9) & (dist2 <= 1e-14 * L[ee] ** 2)
         out = []
-        chunk = max(1, int(3e6 // max(1, E.shape[1])))
-        for s in range(0, used.size, chunk):
-            vs = used[s:s + chunk]
-            X = self.Pc[:, vs]                                              # (d, m)
-            rel = X[:, None, :] - A[:, :, None]                             # (d, ne, m)
-            tpar = (rel * (B - A)[:, :, None]).sum(axis=0) / L2[:, None]    # (ne, m)
-            foot = A[:, :, None] + tpar[None] * (B - A)[:, :, None]
-            dist2 = ((X[:, None, :] - foot) ** 2).sum(axis=0)
-            near = (tpar > 1e-9) & (tpar < 1 - 1e-9) & (dist2 <= 1e-14 * L2[:, None])
-            ee, mm = np.nonzero(near)
-            for e, m in zip(ee.tolist(), mm.tolist()):
-                v = int(vs[m])
-                a, b = int(E[0, e]), int(E[1, e])
-                if v in (a, b):
-                    continue
-                if self.exact:
-                    xa, xb, xv = self.Xc[:, a], self.Xc[:, b], self.Xc[:, v]
-                    u, w = xb - xa, xv - xa
-                    col = all(u[r] * w[q] - u[q] * w[r] == 0 for r in range(d) for q in range(r + 1, d))
-                    dot = sum(u[r] * w[r] for r in range(d))
-                    if col and 0 < dot < sum(u[r] * u[r] for r in range(d)):
-                        out.append((v, (a, b)))
-                else:
-                    out.append((v, (a, b)))
+        for e, v in zip(ee[near].tolist(), vv[near].tolist()):
+            ia, ib = int(E[0, e]), int(E[1, e])
+            if self.exact:
+                xa, xb, xv = self.Xc[:, ia], self.Xc[:, ib], self.Xc[:, v]
+                uu, ww = xb - xa, xv - xa
+                col = all(uu[r] * ww[q] - uu[q] * ww[r] == 0 for r in range(d) for q in range(r + 1, d))
+                dot = sum(uu[r] * ww[r] for r in range(d))
+                if col and 0 < dot < sum(uu[r] * uu[r] for r in range(d)):
+                    out.append((v, (ia, ib)))
+            else:
+                out.append((v, (ia, ib)))
         return out
 
 
